@@ -520,3 +520,4 @@ def run(ctx):
     rule_R12(ctx)
     from . import _http_lists as HL
     HL.direction_flags(ctx, ctx.program, "R4", "http1_process")
+    HL.exclusive_pushes(ctx, ctx.program, "R2", "huginn_net_http::http1_process::convert_headers_to_http_format")
